@@ -79,7 +79,8 @@ class wave_function(ABC):
         )
         return overlaps.reshape(n_walkers)
 
-    @calc_overlap.register
+    @calc_overlap.register(jax.Array)
+    @calc_overlap.register(jax.core.Tracer)
     def _(self, walkers: jax.Array, wave_data: dict) -> jax.Array:
         n_walkers = walkers.shape[0]
         batch_size = n_walkers // self.n_batch
@@ -148,7 +149,8 @@ class wave_function(ABC):
         fbs = jnp.concatenate(fbs, axis=0)
         return fbs.reshape(n_walkers, -1)
 
-    @calc_force_bias.register
+    @calc_force_bias.register(jax.Array)
+    @calc_force_bias.register(jax.core.Tracer)
     def _(self, walkers: jax.Array, ham_data: dict, wave_data: dict) -> jax.Array:
         n_walkers = walkers.shape[0]
         batch_size = n_walkers // self.n_batch
@@ -222,7 +224,8 @@ class wave_function(ABC):
         )
         return energies.reshape(n_walkers)
 
-    @calc_energy.register
+    @calc_energy.register(jax.Array)
+    @calc_energy.register(jax.core.Tracer)
     def _(self, walkers: jax.Array, ham_data: dict, wave_data: dict) -> jax.Array:
         n_walkers = walkers.shape[0]
         batch_size = n_walkers // self.n_batch
